@@ -267,6 +267,11 @@ impl Cmd {
         catch(|| self.run_inner(env))
     }
 
+    /// run without catching panics
+    pub fn run_plain(&self, env: &Env) -> Result<(), String> {
+        self.run_inner(env)
+    }
+
     fn run_inner(&self, env: &Env) -> Result<(), String> {
         match self {
             Cmd::Backup { model, force, time, dry_run } => {
